@@ -26,9 +26,10 @@ RULE = ('grammar-based random AwkwardForth programs (declarations, user words in
 ASSUMPTIONS = [
     'vocabulary not modelled (sessions skipped, counted as unsupported): strings (s" .") and print words (. cr .s), '
     'float reads (f-> d->), N-bit reads with N > 31',
-    'C++ undefined behaviour is modelled as the distinct outcome Fault (negative repeat count, negative rewind, '
-    'INT_MIN / -1, i/j/k below the do-stack, exit unwinding below the frame stack, call() at the recursion limit); '
-    'shift counts are reduced modulo the cell width and signed overflow wraps, as the x86-64 build does',
+    'C++ undefined behaviour is modelled as the distinct outcome Fault (repeat count * item size overflowing int64, '
+    'i/j/k below the do-stack and exit unwinding below the frame stack = exit inside do-loops, call() at the recursion '
+    'limit, recursion limit < 1); shift counts are reduced modulo the cell width and signed overflow wraps, as the '
+    'x86-64 build does',
     'integer-valued floats only (float outputs receive integers); bool outputs are compared as raw bytes',
     'timing counters and stdout of print words are not observed',
     'sessions whose model evaluation runs out of fuel (non-terminating programs) are not sent to the implementation',
@@ -171,17 +172,17 @@ SPEC = [
     ('forth64', 'input x x i-> stack x !i-> stack', B8, [0x04030201, 0x05060708], None),
     ('forth64', 'input x x h-> stack x B-> stack x !H-> stack', [255, 255, 200, 1, 2], [-1, 200, 258], None),
     ('forth64', 'input x x varint-> stack x zigzag-> stack', [172, 2, 3], [300, -2], None),
-    ('forth64', 'input x x q-> stack', B8, [0x0807060504030201], 'forth-read-cast-int32'),
-    ('forth64', 'input x x !q-> stack', B8, [0x0102030405060708], 'forth-read-cast-int32'),
-    ('forth64', 'input x x Q-> stack', B8, [0x0807060504030201], 'forth-read-cast-int32'),
-    ('forth64', 'input x x n-> stack', B8, [0x0807060504030201], 'forth-read-cast-int32'),
-    ('forth64', 'input x x I-> stack', [255, 255, 255, 255], [4294967295], 'forth-read-cast-int32'),
-    ('forth64', 'input x 2 x #I-> stack', [255, 255, 255, 255, 0, 0, 0, 128], [4294967295, 2147483648], 'forth-read-cast-int32'),
-    ('forth64', '1 62 lshift dup 1+ mod', [], [2 ** 62], 'forth-mod-overflow'),
-    ('forth32', '1 30 lshift dup 1+ mod', [], [2 ** 30], 'forth-mod-overflow'),
-    ('forth64', '1 40 lshift dup 2 + swap do i loop', [], [2 ** 40, 2 ** 40 + 1], 'forth-loop-index-cast-int32'),
+    ('forth64', 'input x x q-> stack', B8, [0x0807060504030201], None),
+    ('forth64', 'input x x !q-> stack', B8, [0x0102030405060708], None),
+    ('forth64', 'input x x Q-> stack', B8, [0x0807060504030201], None),
+    ('forth64', 'input x x n-> stack', B8, [0x0807060504030201], None),
+    ('forth64', 'input x x I-> stack', [255, 255, 255, 255], [4294967295], None),
+    ('forth64', 'input x 2 x #I-> stack', [255, 255, 255, 255, 0, 0, 0, 128], [4294967295, 2147483648], None),
+    ('forth64', '1 62 lshift dup 1+ mod', [], [2 ** 62], None),
+    ('forth32', '1 30 lshift dup 1+ mod', [], [2 ** 30], None),
+    ('forth64', '1 40 lshift dup 2 + swap do i loop', [], [2 ** 40, 2 ** 40 + 1], None),
     ('forth64', '4294967296 -4294967297', [], [4294967296, -4294967297], 'forth-literal-cast-int32'),
-    ('forth64', '1 40 lshift negate abs -5 abs', [], [2 ** 40, 5], 'forth-abs-cast-int32'),
+    ('forth64', '1 40 lshift negate abs -5 abs', [], [2 ** 40, 5], None),
 ]
 
 
@@ -217,20 +218,20 @@ def cases(rng, tier):
             name, g, toks = G.fault_program(rng)
             tags = dict(cls='fault', fault=name, **{f: 1 for f, v in g.feat.items() if v})
             settings = G.gen_settings(rng, tight=rng.random() < 0.4)
-        elif k < 0.97:
+        elif k < 0.95:
             name, g, toks = G.invalid_program(rng)
             tags = dict(cls='invalid', mutation=name)
             settings = G.gen_settings(rng)
         else:
-            sig, f = rng.choice(G.UB)
-            toks = f(rng)
-            if sig == 'forth-ub-div-trap' and toks[0] == '-2147483648':
-                machine = 'forth32'
-            if sig == 'forth-ub-div-trap' and toks[1] == '63':
-                machine = 'forth64'
+            if rng.random() < 0.35:
+                sig, f = rng.choice(G.UB)
+                toks = f(rng)
+                tags = dict(cls='ub', ub=sig)
+            else:
+                toks = rng.choice(G.FIXED_UB)(rng)       # undefined / wrong before the fixes, ordinary programs now
+                tags = dict(cls='ub', ub='fixed-since')
             g = G.ProgGen(rng)
             g.nins = 1
-            tags = dict(cls='ub', ub=sig)
             settings = G.gen_settings(rng)
         src = G.render(rng, toks) if tags.get('cls') != 'ub' else ' '.join(toks)
         inputs = G.gen_inputs(rng, max(g.nins, 1 if tags.get('cls') in ('fault', 'ub') else 0))
@@ -421,7 +422,7 @@ def fails_stepdiff(lines):
     return len(lines) >= 2 and all(o.startswith('ok') for o in obs) and obs[0] != obs[1]
 
 
-UB_SIG = {2: 'forth-ub-negative-count', 3: 'forth-ub-negative-rewind', 4: 'forth-ub-div-trap',
+UB_SIG = {2: 'forth-ub-count-overflow', 3: 'forth-ub-negative-rewind', 4: 'forth-ub-div-trap',
           5: 'forth-ub-exit-in-do', 6: 'forth-ub-exit-in-do', 7: 'forth-ub-call-at-depth-limit',
           8: 'forth-ub-recursion-max-0', 9: 'forth-ub-nbit-over-31', 1: 'forth-ub-internal'}
 
@@ -440,12 +441,19 @@ def run(cases, tier, rng):
             lines.append(ln)
             owner['%s.%s' % (c.id, k)] = (c, k)
     C.log('%d sessions of %d programs' % (len(lines), len(cases)))
-    model = run_model(lines)
-    fixed = run_model(lines, fixed=True)
+    model = run_model(lines, fixed=True)      # fixed = the single-step path of the current code
     C.log('model evaluated')
     # do not send (suspected) non-terminating sessions to the implementation
     sendable = [ln for ln in lines if not model.get(C.LINE_ID.match(ln).group(1), 'fuel').startswith('fuel')]
-    impl, errs = C.run_driver(sendable, drv='forthdrv', per_case_timeout=10.0)
+    # sessions whose model outcome is Fault (undefined behaviour of the C++) may corrupt the driver process: they run
+    # in a process of their own, so that a later, unrelated session is never blamed for their damage
+    ub_lines = [ln for ln in sendable if model[C.LINE_ID.match(ln).group(1)].startswith('fault')]
+    ok_lines = [ln for ln in sendable if not model[C.LINE_ID.match(ln).group(1)].startswith('fault')]
+    impl, errs = C.run_driver(ok_lines, drv='forthdrv', per_case_timeout=10.0)
+    if ub_lines:
+        impl_ub, errs_ub = C.run_driver(ub_lines, drv='forthdrv', per_case_timeout=10.0)
+        impl.update(impl_ub)
+        errs.update(errs_ub)
     C.log('implementation evaluated (%d sessions)' % len(sendable))
     impl_san = {}
     if san:
@@ -553,23 +561,13 @@ def run(cases, tier, rng):
         elif 'A' in obs:
             for k in ('B', 'C'):
                 if k in obs and obs[k] != obs['A']:
-                    sidk = '%s.%s' % (c.id, k)
-                    fx = fixed.get(sidk, '')
                     unfinished = '(err 0) (ready 1) (done 0)'
-                    if unfinished in obs[k] and unfinished in fx:
-                        count('step-cap-reached')       # the step budget ran out, also with the patched stepping
+                    if unfinished in obs[k]:
+                        count('step-cap-reached')       # the step budget ran out before the program ended
                         continue
-                    explained = observable(fx) == obs['A']
-                    f = features(c.meta.get('src', ''))
                     sig = None
-                    if explained and f['do'] and not f['exit']:
-                        sig = 'forth-step-do-loop'
-                    elif explained and f['exit'] and not f['do']:
-                        sig = 'forth-step-exit'
-                    elif explained:
-                        sig = 'forth-step-do-loop+exit'
-                    add('viol', 'single-stepping changes the result (%s): one call gives %s ; segmentation %s gives %s'
-                        % (sig or 'unexplained', obs['A'][:300], k, obs[k][:300]),
+                    add('viol', 'single-stepping changes the result: one call gives %s ; segmentation %s gives %s'
+                        % (obs['A'][:300], k, obs[k][:300]),
                         [c.meta['lines']['A'], c.meta['lines'][k], '# one call: ' + obs['A'][:800], '# %s       : %s' % (k, obs[k][:800])],
                         sig=sig, ob='prop:step-independence')
                     count('step-dependent')
